@@ -16,6 +16,7 @@
 //  section C (oracle only)       : every bin x 32 switch combinations x 3 cache modes x number of tangential rays against
 //                                  the no-symmetry/no-cache row (the property's own statement)
 //  section D (op `merge`)        : ProjMatrixElemsForOneBin::merge against the pointwise sum
+//  section E (oracle only)       : set_up again for an image that differs in its index range only, all bins, 3 cache modes
 #include "stir_fixtures.h"
 #include "common.h"
 #include "stir/recon_buildblock/DataSymmetriesForBins_PET_CartesianGrid.h"
@@ -78,7 +79,8 @@ struct Geo
 {
   GeoSpec sp;
   int id = 0;
-  int eqclass = 0; // id of the first geometry with equal projection data info, voxel size and origin (what set_up compares first)
+  int eqclass = 0; // id of the first geometry that set_up cannot tell apart from this one: equal projection data info,
+                   // voxel size, origin and index range of the image (the model's notion of "same geometry")
   shared_ptr<ProjDataInfo> pdi;
   shared_ptr<VoxelsOnCartesianGrid<float>> image;
   const ProjDataInfoCylindrical* cyl = nullptr;
@@ -92,6 +94,8 @@ static std::vector<shared_ptr<Geo>> all_geos;
 
 static bool
 same_data_voxel_origin(const Geo& a, const Geo& b);
+static bool
+same_index_range(const Geo& a, const Geo& b);
 
 static shared_ptr<Geo>
 build_geo(const GeoSpec& sp, int id)
@@ -153,7 +157,7 @@ build_geo(const GeoSpec& sp, int id)
             g->bins.push_back(Bin(s, v, a, tp, tf));
   g->eqclass = id;
   for (auto& o : all_geos)
-    if (same_data_voxel_origin(*o, *g))
+    if (same_data_voxel_origin(*o, *g) && same_index_range(*o, *g))
       {
         g->eqclass = o->eqclass;
         break;
@@ -162,7 +166,8 @@ build_geo(const GeoSpec& sp, int id)
   return g;
 }
 
-// the first comparison of ProjMatrixByBinUsingRayTracing::set_up, with the library's own operator==
+// the comparisons of ProjMatrixByBinUsingRayTracing::set_up, with the library's own operator==: projection data, voxel
+// size, origin ... and index range
 static bool
 same_data_voxel_origin(const Geo& a, const Geo& b)
 {
@@ -507,11 +512,11 @@ oracle_row(const Geo& g, const MatrixCfg& c, const char* mode, const Bin& b, con
           const float m = (z - (g.maxz + g.minz) / 2.F) * g.vz + g.image->get_origin().z();
           if (std::fabs(m) <= half_extent + 1.E-3F)
             known_candidate("voxel-outside-image-in-z:within-axial-extent-of-end-ring",
-                            "rows of bins at the axial ends contain voxels whose z index is outside the image although the image covers all "
-                            "ring centres (the tube of response of an end ring is wider than the image; forward/back projection skip such "
-                            "elements): e.g. "
-                                + std::string(where) + " 3-ring scanner span 1, 5-plane image: Bin(segment 0, view 0, axial_pos 0, tangential 0) "
-                                + "has an element at z=-1");
+                            "rows are not clipped to the planes of the image: a bin whose tube of response sticks out of the image "
+                            "axially (end rings; the image covers the ring centres but not the full axial extent of the scanner) has "
+                            "elements whose z index is outside the image (forward/back projection skip such elements): first case of "
+                            "this run: voxel z=" + std::to_string(z) + " with image planes " + std::to_string(g.minz) + ".."
+                                + std::to_string(g.maxz) + ": " + ctx.str());
           else
             {
               oracle_fail("voxel " + std::to_string(z) + "," + std::to_string(y) + "," + std::to_string(x)
@@ -774,46 +779,35 @@ history(const std::vector<shared_ptr<Geo>>& geos, vh::Rng& rng, int num_events)
 // ------------------------------------------------------------------------------------------------ section E
 
 // set_up for a second geometry that agrees with the first in projection data, voxel size and origin but not in the
-// index range of the image: the rows afterwards must be those of the second geometry.  Oracle only (the Lean model
-// transcribes what set_up does; the differential histories of section B do not contain such pairs).
+// index range of the image: the rows afterwards must be those of the second geometry (the property's "after setting
+// the matrix up again for another geometry"), in every cache mode, also for rows that were in the cache before.
+// (The early return of ProjMatrixByBinUsingRayTracing::set_up used to ignore the index range: repaired.)
 static void
 section_E(const Geo& g1, const Geo& g2, vh::Rng& rng)
 {
+  static const char* mode_name[3] = { "nocache", "basic", "full" };
   if (!same_data_voxel_origin(g1, g2) || same_index_range(g1, g2))
-    return;
-  MatrixCfg c;
-  c.flags = rng.range(0, 31);
-  ProjMatrixByBinUsingRayTracing pm;
-  configure(pm, c);
-  pm.set_up(g1.pdi, g1.image);
-  fetch(pm, g1.bins[0]);
-  pm.set_up(g2.pdi, g2.image);
-  const long fails_before = oracle_fails;
-  long local_fails = 0;
-  for (std::size_t i = 0; i < g2.bins.size(); i += 3)
     {
-      // evaluate the property's statement; failures of this section belong to one known class
-      const long f0 = oracle_fails;
-      const SRow r = fetch(pm, g2.bins[i]);
-      ++oracle_checks;
-      if (screened(g2, g2.bins[i], c.ntl, c.restrict_fov))
-        continue;
-      const SRow& ref = reference(g2, c.ntl, c.restrict_fov).row(g2.bins[i]);
-      bool same = r.e.size() == ref.e.size();
-      for (std::size_t k = 0; same && k < r.e.size(); ++k)
-        same = r.e[k].first == ref.e[k].first && std::fabs(r.e[k].second - ref.e[k].second) <= 2.E-3F * std::max(r.e[k].second, ref.e[k].second);
-      if (!same)
-        ++local_fails;
-      (void)f0;
+      std::fprintf(stderr, "c03 harness: section E pair %d,%d is not a same-data/other-index-range pair\n", g1.id, g2.id);
+      std::exit(3);
     }
-  (void)fails_before;
-  histo["E:pairs"]++;
-  if (local_fails > 0)
-    known_candidate("setup-skipped:same-data-voxelsize-origin-but-other-index-range",
-                    "ProjMatrixByBinUsingRayTracing::set_up called for an image with the same voxel size and origin but another index "
-                    "range (projection data unchanged) returns without doing anything: afterwards rows are those of the old image "
-                    "(e.g. 16 detectors x 3 rings, voxels 2x2x2 mm: set_up with a 5x5 image, then with a 9x9 image: "
-                    "Bin(0,0,1,0) has 15 elements, a fresh matrix gives 27)");
+  for (int mode = 0; mode < 3; ++mode)
+    {
+      MatrixCfg c;
+      c.flags = rng.range(0, 31);
+      c.ntl = rng.range(1, 2);
+      ProjMatrixByBinUsingRayTracing pm;
+      configure(pm, c);
+      pm.enable_cache(mode != 0);
+      pm.store_only_basic_bins_in_cache(mode == 1);
+      pm.set_up(g1.pdi, g1.image);
+      for (std::size_t i = 0; i < g1.bins.size(); i += 2)
+        fetch(pm, g1.bins[i]);
+      pm.set_up(g2.pdi, g2.image);
+      for (std::size_t i = 0; i < g2.bins.size(); ++i)
+        oracle_row(g2, c, mode_name[mode], g2.bins[i], fetch(pm, g2.bins[i]), "set_up-other-index-range");
+      histo["E:pairs"]++;
+    }
 }
 
 // ------------------------------------------------------------------------------------------------ section D
@@ -948,6 +942,9 @@ main(int argc, char** argv)
     c.ntang = 3;
     c.tof_bins = 5;
     full.push_back(build_geo(c, next_id++));
+    GeoSpec d; // the standard image of a 3-ring scanner, span 1: 5 planes of half the ring spacing
+    d.m = 2;
+    full.push_back(build_geo(d, next_id++));
   }
   const int nrandom_full = thorough ? 30 : 3;
   for (int k = 0; k < nrandom_full; ++k)
@@ -1006,6 +1003,7 @@ main(int argc, char** argv)
       section_C(*g, rng, { 1 }, { 1 }, thorough ? 1 : 4);
 
   // ---- section B (histories): geometry groups that differ in one aspect only
+  shared_ptr<Geo> g_a2, g_a7;
   {
     std::vector<shared_ptr<Geo>> group1, group2, group3;
     GeoSpec a;
@@ -1025,9 +1023,18 @@ main(int argc, char** argv)
     a6.extra_lo = 2;
     a6.extra_hi = 0;
     group1.push_back(build_geo(a6, next_id++));
+    GeoSpec a2 = a; // same data, voxel size and origin; larger image in x and y: other index range only
+    a2.dnx = a2.dny = 2;
+    GeoSpec a7 = a; // ... one more plane at each end
+    a7.extra_lo = a7.extra_hi = 1;
+    g_a2 = build_geo(a2, next_id++);
+    g_a7 = build_geo(a7, next_id++);
+    group1.push_back(g_a2);
+    group1.push_back(g_a7);
     group2.push_back(full[1]);
     group2.push_back(full[0]);
     group2.push_back(sampled[3]);
+    group2.push_back(full[3]); // same data as full[0], half the z voxel size
     group3.push_back(full[2]); // TOF
     GeoSpec c2 = full[2]->sp;
     c2.zoom = .8F;
@@ -1037,8 +1044,7 @@ main(int argc, char** argv)
       {
         for (auto& g : *grp)
           std::fprintf(ops, "pgeo %d %d %s\n", g->id, g->eqclass, g->tokens.c_str()), std::fprintf(out, "ok\n");
-        // the differential histories stay clear of the known set_up defect (see section E): no two different
-        // geometries of a group may agree in projection data, voxel size and origin
+        // no two members of a group may be the same geometry (equal projection data, voxel size, origin and index range)
         for (auto& g : *grp)
           for (auto& o : *grp)
             if (g->id != o->id && g->eqclass == o->eqclass)
@@ -1055,17 +1061,10 @@ main(int argc, char** argv)
   }
 
   // ---- section E
-  {
-    GeoSpec a;
-    GeoSpec a2 = a; // same data, voxel size and origin; larger image in x and y
-    a2.dnx = a2.dny = 2;
-    GeoSpec a7 = a; // ... one more plane at each end
-    a7.extra_lo = a7.extra_hi = 1;
-    shared_ptr<Geo> g2 = build_geo(a2, next_id++), g7 = build_geo(a7, next_id++);
-    section_E(*full[0], *g2, rng);
-    section_E(*g2, *full[0], rng);
-    section_E(*full[0], *g7, rng);
-  }
+  section_E(*full[0], *g_a2, rng);
+  section_E(*g_a2, *full[0], rng);
+  section_E(*full[0], *g_a7, rng);
+  section_E(*g_a7, *full[0], rng);
 
   // ---- section D
   section_D(rng, thorough ? 3000 : 400);
